@@ -387,7 +387,7 @@ func (c *c10Child) runServerCase(k *c10Case) c10Reply {
 		o.Sid = sid
 		fmt.Fprintf(os.Stderr, "c10-step %d\n", i) // lets the parent name the arrival a crash belongs to
 		from := home
-		if c.udp && s.From == "fresh" {
+		if c.udp && (s.From == "fresh" || s.From == "port0") {
 			from = fresh
 		}
 		// hostile payloads consist of bytes >= 0x80; everything else the applications exchange is ASCII
@@ -457,7 +457,13 @@ func (c *c10Child) runServerCase(k *c10Case) c10Reply {
 		home.mu.Unlock()
 		prevRaw, prevFrom = raw, from
 		from.mu.Lock()
-		if len(raw) > 0 || c.udp {
+		if c.udp && s.From == "port0" {
+			// the datagram arrives from an address the server's socket cannot send to: source port 0 (the kernel
+			// delivers such datagrams and answers EINVAL to sendto; simnet does the same)
+			if ep := c.net.Endpoint(c.serverAddrUDP().Port); ep != nil {
+				ep.InjectFrom(raw, &net.UDPAddr{IP: net.IPv4(10, 9, 9, 9), Port: 0})
+			}
+		} else if len(raw) > 0 || c.udp {
 			from.sendRawLocked(raw)
 		}
 		from.mu.Unlock()
